@@ -94,8 +94,19 @@ def check_variable_set(ctx: Check, tree: Tree) -> None:
     """The variable set of (transition, node) is evaluated as a term over the abstract decay of that node
     (sa/props/c02.py decay_evaluator): helpers, unpacking of decay.children, keyword arguments and the
     way the symbols are fetched do not matter - only which symbol ends up in which role, on every path."""
+    from ..rules import falsy_zero_hazards
     from ..terms import vkey
     from .c02 import NODE_ID, TRANSITION, decay_evaluator, decay_value
+
+    # R-FALSYZERO: L = 0 (an S-wave) is a value, None is "not specified": only `is None` tells them apart
+    hazards, reads = falsy_zero_hazards(tree, "ampform.helicity")
+    if reads < 3:
+        raise AnalysisError(f"R-FALSYZERO: only {reads} reads of the optional quantum numbers of an interaction found in ampform.helicity (5 confirmed)")
+    for hfn, node, src in hazards:
+        ctx.violation("R-FALSYZERO", f"{hfn.qual}::truth-test::{src}", tree.loc(node), f"`{unparse(node)[:60]}` is tested for truth, but it is `{src}`: 0 (S-wave / spin 0) is a value and must not be treated like None",
+                      "use `is None`; with a truth test an L = 0 node gets the fallback angular momentum in its form factor")
+    if not hazards:
+        ctx.ok("R-FALSYZERO", tree.loc(tree.func(f"{HEL}::_generate_kinematic_variable_set").node), f"no truth test of an optional quantum number ({reads} reads of l/s magnitude and projection in ampform.helicity judged)")
 
     D.reset()
     te = decay_evaluator(tree)
